@@ -71,9 +71,12 @@ def acl_lists(a) -> Tuple[list, list, list, list]:
     return back(a.ip_to_id), back(a.wildcard_to_id), back(a.port_to_id), back(a.protocol_to_id)
 
 
-def obj_tokens(o, top: bool = True) -> List[str]:
-    """Model configuration of a real observation object (including its current memory)."""
+def obj_tokens(o, top: bool = True, fresh: bool = False) -> List[str]:
+    """Model configuration of a real observation object (including its current memory; `fresh` reports the memory of a newly
+    constructed object instead, for comparison with what the model builds from the scenario)."""
     n = type(o).__name__
+    if fresh:
+        return _fresh_tokens(o, top)
     if n == "NullObservation":
         return ["null"]
     if n == "ServiceObservation":
@@ -136,6 +139,291 @@ def obj_tokens(o, top: bool = True) -> List[str]:
     if n == "NestedObservation":
         return ["nested"] + many([[T(label)] + obj_tokens(c) for label, c in o.components.items()])
     raise ValueError(f"unsupported observation class {n}")
+
+
+def _fresh_tokens(o, top: bool) -> List[str]:
+    """obj_tokens with the mutable attributes (NMNE last-step counters, folder cache) as they are right after construction"""
+    import copy
+    n = type(o).__name__
+    if n == "FolderObservation":
+        c = copy.copy(o)
+        c.cached_obs = {"health_status": 0}
+        c.files = list(o.files)
+        return obj_tokens(c, top)
+    if n == "NICObservation":
+        c = copy.copy(o)
+        if hasattr(c, "nmne_inbound_last_step"):
+            c.nmne_inbound_last_step = 0
+            c.nmne_outbound_last_step = 0
+        return obj_tokens(c, top)
+    if n == "HostObservation":
+        w = _where(o, [])
+        return (["host"] * top + opt(w) + [B(o.include_num_access), B(o.include_users)]
+                + many([obj_tokens(x, False) for x in o.services]) + many([obj_tokens(x, False) for x in o.applications])
+                + many([_fresh_tokens(x, False) for x in o.folders]) + many([_fresh_tokens(x, False) for x in o.nics]))
+    if n == "NodesObservation":
+        return (["nodes"] + many([_fresh_tokens(x, False) for x in o.hosts]) + many([obj_tokens(x, False) for x in o.routers])
+                + many([obj_tokens(x, False) for x in o.firewalls]))
+    if n == "NestedObservation":
+        return ["nested"] + many([[T(label)] + _fresh_tokens(c, True) for label, c in o.components.items()])
+    return obj_tokens(o, top)
+
+
+# ----------------------------------------------------------------------------------------------- the scenario's own words
+class Unsupported(ValueError):
+    pass
+
+
+def _fld(d: dict, key: str, f) -> List[str]:
+    """a ConfigSchema field as the scenario gives it: `~` absent, `-` null, `+ value`"""
+    if key not in d:
+        return ["~"]
+    v = d[key]
+    if v is None:
+        return ["-"]
+    return ["+"] + f(v)
+
+
+def _b(v) -> List[str]:
+    if not isinstance(v, bool):
+        raise Unsupported(f"not a bool: {v!r}")
+    return [B(v)]
+
+
+def _n(v) -> List[str]:
+    if isinstance(v, bool) or not isinstance(v, int) or v < 0:
+        raise Unsupported(f"not a count: {v!r}")
+    return [str(v)]
+
+
+def _port(v) -> int:
+    from primaite.utils.validation.port import PORT_LOOKUP
+    if isinstance(v, str):
+        v = PORT_LOOKUP[v]
+    if isinstance(v, bool) or not isinstance(v, int) or v < 0:
+        raise Unsupported(f"not a port: {v!r}")
+    return v
+
+
+def _proto(v) -> str:
+    from primaite.utils.validation.ip_protocol import PROTOCOL_LOOKUP
+    return T(PROTOCOL_LOOKUP.get(v, v)).lower()
+
+
+def _traffic(v: dict) -> List[str]:
+    return many([[_proto(p)] + many([[str(_port(q))] for q in (ports or [])]) for p, ports in v.items()])
+
+
+def thr_cfg_tokens(th: Optional[dict]) -> List[str]:
+    """a `thresholds` dictionary: `-` when falsy, else the three entries the observations look up"""
+    if not th:
+        return ["-"]
+    out = ["+"]
+    for key in ("app_executions", "file_access", "nmne"):
+        e = th.get(key)
+        out += ["-"] if e is None else ["+", str(int(e["low"])), str(int(e["medium"])), str(int(e["high"]))]
+    return out
+
+
+def _check_keys(d: dict, allowed: set, what: str):
+    extra = set(d) - allowed
+    if extra:
+        raise Unsupported(f"{what}: option(s) {sorted(extra)} are not followed by the model")
+
+
+def _strs(v) -> List[str]:
+    return many([[T(x)] for x in v])
+
+
+def _ports(v) -> List[str]:
+    return many([[str(_port(x))] for x in v])
+
+
+def _protos(v) -> List[str]:
+    return many([[_proto(x)] for x in v])
+
+
+def _acl_fields(d: dict) -> List[str]:
+    return _fld(d, "ip_list", _strs) + _fld(d, "wildcard_list", _strs) + _fld(d, "port_list", _ports) + _fld(d, "protocol_list", _protos) + _fld(d, "num_rules", _n)
+
+
+def raw_host_tokens(h: dict) -> List[str]:
+    _check_keys(h, {"hostname", "services", "applications", "folders", "network_interfaces", "num_services", "num_applications", "num_folders",
+                    "num_files", "num_nics", "include_nmne", "monitored_traffic", "include_num_access", "file_system_requires_scan",
+                    "services_requires_scan", "applications_requires_scan", "include_users", "thresholds"}, "host")
+
+    def svc(c):
+        _check_keys(c, {"service_name", "services_requires_scan"}, "service")
+        return [T(c["service_name"])] + _fld(c, "services_requires_scan", _b)
+
+    def app(c):
+        _check_keys(c, {"application_name", "applications_requires_scan"}, "application")
+        return [T(c["application_name"])] + _fld(c, "applications_requires_scan", _b)
+
+    def file(c):
+        _check_keys(c, {"file_name", "include_num_access", "file_system_requires_scan"}, "file")
+        return [T(c["file_name"])] + _fld(c, "include_num_access", _b) + _fld(c, "file_system_requires_scan", _b)
+
+    def folder(c):
+        _check_keys(c, {"folder_name", "files", "num_files", "include_num_access", "file_system_requires_scan"}, "folder")
+        return ([T(c["folder_name"])] + many([file(x) for x in c.get("files", [])]) + _fld(c, "num_files", _n) + _fld(c, "include_num_access", _b)
+                + _fld(c, "file_system_requires_scan", _b))
+
+    def nic(c):
+        _check_keys(c, {"nic_num", "include_nmne", "monitored_traffic"}, "network interface")
+        return _n(c["nic_num"]) + _fld(c, "include_nmne", _b) + _fld(c, "monitored_traffic", _traffic)
+    return ([T(h["hostname"])] + many([svc(c) for c in h.get("services", [])]) + many([app(c) for c in h.get("applications", [])])
+            + many([folder(c) for c in h.get("folders", [])]) + many([nic(c) for c in h.get("network_interfaces", [])])
+            + _fld(h, "num_services", _n) + _fld(h, "num_applications", _n) + _fld(h, "num_folders", _n) + _fld(h, "num_files", _n) + _fld(h, "num_nics", _n)
+            + _fld(h, "include_nmne", _b) + _fld(h, "monitored_traffic", _traffic) + _fld(h, "include_num_access", _b)
+            + _fld(h, "file_system_requires_scan", _b) + _fld(h, "services_requires_scan", _b) + _fld(h, "applications_requires_scan", _b)
+            + _fld(h, "include_users", _b) + thr_cfg_tokens(h.get("thresholds")))
+
+
+def raw_router_tokens(r: dict) -> List[str]:
+    _check_keys(r, {"hostname", "ports", "num_ports", "acl", "ip_list", "wildcard_list", "port_list", "protocol_list", "num_rules", "include_users"}, "router")
+
+    def acl(a):
+        _check_keys(a, {"ip_list", "wildcard_list", "port_list", "protocol_list", "num_rules"}, "acl")
+        return _acl_fields(a)
+    return ([T(r["hostname"])] + _fld(r, "ports", lambda v: many([_n(c["port_id"]) for c in v])) + _fld(r, "num_ports", _n) + _fld(r, "acl", acl)
+            + _acl_fields(r) + _fld(r, "include_users", _b))
+
+
+def raw_firewall_tokens(f: dict) -> List[str]:
+    _check_keys(f, {"hostname", "ip_list", "wildcard_list", "port_list", "protocol_list", "num_rules", "include_users"}, "firewall")
+    return [T(f["hostname"])] + _acl_fields(f) + _fld(f, "include_users", _b)
+
+
+def raw_nodes_tokens(o: dict) -> List[str]:
+    _check_keys(o, {"hosts", "routers", "firewalls", "num_services", "num_applications", "num_folders", "num_files", "num_nics", "include_nmne",
+                    "monitored_traffic", "include_num_access", "file_system_requires_scan", "services_requires_scan", "applications_requires_scan",
+                    "include_users", "num_ports", "ip_list", "wildcard_list", "port_list", "protocol_list", "num_rules"}, "nodes")
+
+    def scan(key):  # `bool = True`: absent or a value
+        if key not in o:
+            return ["~"]
+        return ["+"] + _b(o[key])
+    return (many([raw_host_tokens(h) for h in o.get("hosts", [])]) + many([raw_router_tokens(r) for r in o.get("routers", [])])
+            + many([raw_firewall_tokens(f) for f in o.get("firewalls", [])])
+            + _fld(o, "num_services", _n) + _fld(o, "num_applications", _n) + _fld(o, "num_folders", _n) + _fld(o, "num_files", _n) + _fld(o, "num_nics", _n)
+            + _fld(o, "include_nmne", _b) + _fld(o, "monitored_traffic", _traffic) + _fld(o, "include_num_access", _b)
+            + scan("file_system_requires_scan") + scan("services_requires_scan") + scan("applications_requires_scan") + _fld(o, "include_users", _b)
+            + _fld(o, "num_ports", _n) + _acl_fields(o))
+
+
+def raw_obs_tokens(osp: Optional[dict]) -> List[str]:
+    """The agent's `observation_space` exactly as the scenario file words it → tokens of Model/ObsConfig.RawObs.
+    Raises `Unsupported` for component types / options the model does not follow."""
+    if osp is None:
+        return ["null"]
+    t = osp.get("type", "none")
+    o = osp.get("options") or {}
+    if t == "none":
+        return ["null"]
+    if t == "nodes":
+        return ["nodes"] + raw_nodes_tokens(o)
+    if t == "links":
+        _check_keys(o, {"link_references"}, "links")
+        rows = []
+        for ref in o["link_references"]:
+            a, _, b = ref.partition("<->")
+            rows.append([T(a), T(b)])
+        return ["links"] + many(rows)
+    if t == "custom":
+        _check_keys(o, {"components"}, "custom")
+        rows = []
+        for c in o.get("components", []):
+            rows.append([T(c["label"])] + raw_obs_tokens({"type": c["type"], "options": c.get("options") or {}}))
+        return ["nested"] + many(rows)
+    raise Unsupported(f"observation type {t!r} is not followed by the model as a top-level / nested component")
+
+
+def rawcfg_line(osp: Optional[dict], thresholds: Optional[dict]) -> str:
+    return "rawcfg " + " ".join(thr_cfg_tokens(thresholds) + raw_obs_tokens(osp))
+
+
+# ----------------------------------------------------------------------------------------------- every object of a tree
+def walk(o, path: str = "") -> List[Tuple[str, Any]]:
+    """(path, object) for the object and every observation object below it"""
+    n = type(o).__name__
+    out = [(path or "/", o)]
+    kids: List[Tuple[str, Any]] = []
+    if n == "NestedObservation":
+        kids = [(str(k), c) for k, c in o.components.items()]
+    elif n == "NodesObservation":
+        kids = ([(f"HOST{i}", h) for i, h in enumerate(o.hosts)] + [(f"ROUTER{i}", r) for i, r in enumerate(o.routers)]
+                + [(f"FIREWALL{i}", f) for i, f in enumerate(o.firewalls)])
+    elif n == "HostObservation":
+        kids = ([(f"SERVICES/{i + 1}", x) for i, x in enumerate(o.services)] + [(f"APPLICATIONS/{i + 1}", x) for i, x in enumerate(o.applications)]
+                + [(f"FOLDERS/{i + 1}", x) for i, x in enumerate(o.folders)] + [(f"NICS/{i + 1}", x) for i, x in enumerate(o.nics)])
+    elif n == "FolderObservation":
+        kids = [(f"FILES/{i + 1}", x) for i, x in enumerate(o.files)]
+    elif n == "RouterObservation":
+        kids = [("ACL", o.acl)] + [(f"PORTS/{i + 1}", x) for i, x in enumerate(o.ports)]
+    elif n == "FirewallObservation":
+        kids = ([(f"PORTS/{i + 1}", x) for i, x in enumerate(o.ports)]
+                + [(f"ACL/{a}", getattr(o, a)) for a in ACL_NAMES[1:]])
+    elif n == "LinksObservation":
+        kids = [(str(i + 1), x) for i, x in enumerate(o.links)]
+    for k, c in kids:
+        out += walk(c, f"{path}/{k}")
+    return out
+
+
+def shape(v: Any) -> Any:
+    """the key structure of an observation / a space (canonical form), leaves forgotten"""
+    if isinstance(v, dict):
+        return {k: shape(x) for k, x in sorted(v.items())}
+    return 0
+
+
+def shape_diff(a: Any, b: Any, path: str = "") -> Optional[str]:
+    if isinstance(a, dict) != isinstance(b, dict):
+        return f"{path or '/'}: dict on one side only"
+    if isinstance(a, dict):
+        if set(a) != set(b):
+            return f"{path or '/'}: keys {sorted(set(a) - set(b))} only left, {sorted(set(b) - set(a))} only right"
+        for k in a:
+            d = shape_diff(a[k], b[k], f"{path}/{k}")
+            if d:
+                return d
+    return None
+
+
+def full_state(root, ev: Dict[str, List[int]]) -> dict:
+    """A state in which everything the tree points at EXISTS and every node is ON (so that no object answers with its default)."""
+    st: Dict[str, Any] = {"network": {"nodes": {}, "links": {}}}
+
+    def node(h):
+        return st["network"]["nodes"].setdefault(h, {
+            "operating_state": 1, "services": {"user-session-manager": {"operating_state": 1, "health_state_actual": 1, "health_state_visible": 1,
+                                                                        "current_local_user": None, "active_remote_sessions": []}},
+            "applications": {}, "file_system": {"folders": {}, "num_file_creations": 0, "num_file_deletions": 0}, "NICs": {},
+            **{a: {"acl": {i: None for i in range(24)}} for a in ACL_NAMES}})
+    for _, o in walk(root):
+        n = type(o).__name__
+        w = getattr(o, "where", None)
+        if w is None or n in ("NestedObservation", "NodesObservation", "LinksObservation"):
+            continue
+        w = list(w)
+        if n == "LinkObservation":
+            st["network"]["links"][w[2]] = {"bandwidth": 100.0, "current_load": 50.0}
+            continue
+        if len(w) < 3 or w[:2] != ["network", "nodes"]:
+            continue
+        ns = node(w[2])
+        if n == "ServiceObservation":
+            ns["services"][w[4]] = {"operating_state": 1, "health_state_actual": 1, "health_state_visible": 1}
+        elif n == "ApplicationObservation":
+            ns["applications"][w[4]] = {"operating_state": 1, "health_state_actual": 1, "health_state_visible": 1, "num_executions": 1}
+        elif n in ("FolderObservation", "FileObservation"):
+            fo = ns["file_system"]["folders"].setdefault(w[5], {"health_status": 1, "visible_status": 1, "scanned_this_step": False, "files": {}})
+            if n == "FileObservation":
+                fo["files"][w[7]] = {"health_status": 1, "visible_status": 1, "num_access": 1}
+        elif n in ("NICObservation", "PortObservation"):
+            ns["NICs"][w[4]] = {"enabled": True, "speed": 100, "traffic": {}, "nmne": {}}
+    return st
 
 
 # ----------------------------------------------------------------------------------------------- exact numbers
@@ -483,22 +771,32 @@ def gen_state(rng: Rng, ev, capture: bool, mon_protos: List[str], mon_ports: Lis
     return {"network": {"nodes": nodes, "links": links}}
 
 
-def gen_object(rng: Rng, defects: bool) -> Tuple[Any, dict]:
-    """A real observation object tree built through the public constructors / from_config, plus generation facts."""
-    from primaite.game.agent.observations.acl_observation import ACLObservation
-    from primaite.game.agent.observations.observation_manager import NestedObservation, ObservationManager
+def _maybe(rng: Rng, d: dict, key: str, value, num: int = 1, den: int = 3, null: bool = True):
+    """give an option at this level with probability num/den; now and then as an explicit `null`"""
+    if rng.chance(num, den):
+        d[key] = None if (null and rng.chance(1, 8)) else value
+
+
+def gen_traffic(rng: Rng) -> Optional[dict]:
+    mt = {}
+    for p in PROTOS:
+        if rng.chance(2, 3):
+            mt[p] = [] if p == "icmp" and rng.chance(1, 2) else [rng.choice([80, 443, 21, 5432]) for _ in range(rng.range(1, 3))]
+    return mt
+
+
+def gen_object(rng: Rng, defects: bool, invalid: bool = False) -> Tuple[Any, dict]:
+    """A real observation object tree built through ObservationManager from a generated SCENARIO-style configuration, plus generation
+    facts.  Every list (services / applications / folders / files / network_interfaces / router ports) is given explicitly with a
+    length below, at and above its `num_*` (0 included) or left out; every inheritable option is given at nodes level, overridden per
+    host / router / firewall, given as `null`, or (for the children's own options, which the parents overwrite) at child level; routers
+    carry explicit `acl:` sub-configurations.  With `invalid`, one nodes-level option the validator demands is dropped.
+    Returns (object or None when construction raised, facts)."""
+    from primaite.game.agent.observations.observation_manager import ObservationManager
     thresholds = gen_thresholds(rng)
-    scan = {k: rng.chance(1, 2) for k in ("fs", "svc", "app")}
-    include_nmne = rng.chance(1, 2)
-    include_num_access = rng.chance(1, 2)
-    mt = None
-    if rng.chance(2, 3):
-        mt = {}
-        for p in PROTOS:
-            if rng.chance(2, 3):
-                mt[p] = [] if p == "icmp" and rng.chance(1, 2) else [rng.choice([80, 443, 21, 5432]) for _ in range(rng.range(1, 3))]
-        if not mt and rng.chance(1, 2):
-            mt = None
+    mt = gen_traffic(rng) if rng.chance(2, 3) else None
+    if mt == {} and rng.chance(1, 2):
+        mt = None
     nrules = rng.choice([1, 2, 3, 8, 24])
     ips = [x for x in IPS if rng.chance(3, 4)]
     wcs = [x for x in WCS if rng.chance(3, 4)]
@@ -513,46 +811,150 @@ def gen_object(rng: Rng, defects: bool) -> Tuple[Any, dict]:
         ips = ips + [ips[0]]
     if defects and rng.chance(1, 3):
         facts["stray_ip"] = True
+    all_ips = list(ips)
+    all_mt: Dict[str, list] = {k: list(v) for k, v in (mt or {}).items()}
+
+    def note_mt(m):
+        for k, v in (m or {}).items():
+            all_mt.setdefault(k, [])
+            all_mt[k] += [q for q in v if q not in all_mt[k]]
+
+    def short_list(pool, lo=0, hi=4):
+        k = rng.range(lo, hi)
+        return [rng.choice(pool) for _ in range(k)] if rng.chance(1, 4) else list(pool[:k]) + [f"extra{i}" for i in range(max(0, k - len(pool)))]
 
     def host_cfg(h):
-        c = {"hostname": h}
+        c: Dict[str, Any] = {"hostname": h}
         if rng.chance(3, 4):
-            c["services"] = [{"service_name": s} for s in SVC_NAMES if rng.chance(1, 2)]
+            c["services"] = [{"service_name": s} for s in short_list(SVC_NAMES)]
+            for x in c["services"]:
+                _maybe(rng, x, "services_requires_scan", rng.chance(1, 2), 1, 5)
         if rng.chance(3, 4):
-            c["applications"] = [{"application_name": a} for a in APP_NAMES if rng.chance(1, 2)]
+            c["applications"] = [{"application_name": a} for a in short_list(APP_NAMES)]
+            for x in c["applications"]:
+                _maybe(rng, x, "applications_requires_scan", rng.chance(1, 2), 1, 5)
         if rng.chance(3, 4):
-            c["folders"] = [{"folder_name": f, "files": [{"file_name": x} for x in FILES if rng.chance(1, 2)]} for f in FOLDERS if rng.chance(1, 2)]
-        if rng.chance(1, 3):
-            c["network_interfaces"] = [{"nic_num": rng.choice([1, 2, 3, 5])} for _ in range(rng.range(0, 2))]
-            if mt is not None:
-                for nc in c["network_interfaces"]:
-                    nc["monitored_traffic"] = mt
+            c["folders"] = []
+            for f in short_list(FOLDERS):
+                fc: Dict[str, Any] = {"folder_name": f}
+                if rng.chance(3, 4):
+                    fc["files"] = [{"file_name": x} for x in short_list(FILES)]
+                    for x in fc["files"]:
+                        _maybe(rng, x, "include_num_access", rng.chance(1, 2), 1, 6)
+                        _maybe(rng, x, "file_system_requires_scan", rng.chance(1, 2), 1, 6)
+                _maybe(rng, fc, "num_files", rng.range(0, 4), 1, 5)
+                _maybe(rng, fc, "include_num_access", rng.chance(1, 2), 1, 5)
+                _maybe(rng, fc, "file_system_requires_scan", rng.chance(1, 2), 1, 5)
+                c["folders"].append(fc)
+        if rng.chance(1, 2):
+            c["network_interfaces"] = []
+            for _ in range(rng.range(0, 4)):
+                nc: Dict[str, Any] = {"nic_num": rng.choice([1, 2, 3, 5])}
+                _maybe(rng, nc, "include_nmne", rng.chance(1, 2), 1, 5)
+                if rng.chance(1, 2):
+                    nc["monitored_traffic"] = mt if rng.chance(2, 3) else gen_traffic(rng)
+                    note_mt(nc["monitored_traffic"])
+                c["network_interfaces"].append(nc)
+        for k in ("num_services", "num_applications", "num_folders", "num_files", "num_nics"):
+            _maybe(rng, c, k, rng.range(0, 4), 1, 4)
+        for k in ("include_nmne", "include_num_access", "file_system_requires_scan", "services_requires_scan", "applications_requires_scan", "include_users"):
+            _maybe(rng, c, k, rng.chance(1, 2), 1, 4)
+        if rng.chance(1, 5):
+            c["monitored_traffic"] = gen_traffic(rng)
+            note_mt(c["monitored_traffic"])
+        if rng.chance(1, 5):
+            c["thresholds"] = gen_thresholds(rng)
         return c
-    nodes_opts = {
+
+    def acl_fields(d: dict, den: int):
+        if rng.chance(1, den):
+            d["ip_list"] = [x for x in IPS if rng.chance(1, 2)]
+            all_ips.extend(x for x in d["ip_list"] if x not in all_ips)
+        if rng.chance(1, den):
+            d["wildcard_list"] = [x for x in WCS if rng.chance(1, 2)]
+        if rng.chance(1, den):
+            d["port_list"] = [x for x in PORTS if rng.chance(1, 2)]
+        if rng.chance(1, den):
+            d["protocol_list"] = [x for x in PROTOS if rng.chance(1, 2)]
+        if rng.chance(1, den):
+            d["num_rules"] = rng.choice([0, 1, 2, 5, 24])
+
+    def router_cfg(h):
+        c: Dict[str, Any] = {"hostname": h}
+        if rng.chance(1, 2):
+            c["ports"] = [{"port_id": rng.choice([1, 2, 3, 4, 7])} for _ in range(rng.range(0, 5))]
+        _maybe(rng, c, "num_ports", rng.range(0, 4), 1, 3)
+        if rng.chance(1, 3):
+            c["acl"] = {}
+            acl_fields(c["acl"], 2)
+        acl_fields(c, 4)
+        _maybe(rng, c, "include_users", rng.chance(1, 2), 1, 3)
+        return c
+
+    def firewall_cfg(h):
+        c: Dict[str, Any] = {"hostname": h}
+        acl_fields(c, 4)
+        _maybe(rng, c, "include_users", rng.chance(1, 2), 1, 3)
+        return c
+    nodes_opts: Dict[str, Any] = {
         "hosts": [host_cfg(h) for h in HOSTS if rng.chance(2, 3)],
         "num_services": rng.range(0, 3), "num_applications": rng.range(0, 3), "num_folders": rng.range(0, 3), "num_files": rng.range(0, 3),
-        "num_nics": rng.range(0, 3), "include_nmne": include_nmne, "include_num_access": include_num_access,
-        "file_system_requires_scan": scan["fs"], "services_requires_scan": scan["svc"], "applications_requires_scan": scan["app"],
-        "include_users": rng.chance(2, 3), "monitored_traffic": mt,
+        "num_nics": rng.range(0, 3), "include_nmne": rng.chance(1, 2), "include_num_access": rng.chance(1, 2),
         "routers": [], "firewalls": [], "ip_list": ips, "wildcard_list": wcs, "port_list": ports, "protocol_list": protos,
         "num_rules": nrules, "num_ports": rng.range(0, 3),
     }
+    for k in ("file_system_requires_scan", "services_requires_scan", "applications_requires_scan"):
+        _maybe(rng, nodes_opts, k, rng.chance(1, 2), 2, 3, null=False)
+    _maybe(rng, nodes_opts, "include_users", rng.chance(1, 2), 2, 3)
+    if mt is not None or rng.chance(1, 2):
+        nodes_opts["monitored_traffic"] = mt
     if rng.chance(1, 2):
-        nodes_opts["routers"] = [{"hostname": rng.choice(HOSTS)}]
+        nodes_opts["routers"] = [router_cfg(rng.choice(HOSTS)) for _ in range(rng.range(1, 2))]
     if rng.chance(1, 3):
-        nodes_opts["firewalls"] = [{"hostname": rng.choice(HOSTS)}]
+        nodes_opts["firewalls"] = [firewall_cfg(rng.choice(HOSTS))]
+    if invalid:
+        needed = (["num_services", "num_applications", "num_folders", "num_files", "num_nics", "include_nmne", "include_num_access"] if nodes_opts["hosts"] else []) \
+            + (["num_ports", "ip_list", "wildcard_list", "port_list", "protocol_list", "num_rules"] if nodes_opts["routers"] else []) \
+            + (["ip_list", "num_rules"] if nodes_opts["firewalls"] else [])
+        if needed:
+            k = rng.choice(needed)
+            if rng.chance(1, 2):
+                del nodes_opts[k]
+            else:
+                nodes_opts[k] = None
     comps = [{"type": "nodes", "label": "NODES", "options": nodes_opts}]
     if rng.chance(2, 3):
         refs = ["pc_a:eth-1<->sw:eth-1", "srv-b:eth-1<->sw:eth-2", "x:eth-1<->y:eth-1"]
         comps.append({"type": "links", "label": "LINKS", "options": {"link_references": [r for r in refs if rng.chance(2, 3)]}})
     if rng.chance(1, 3):
         comps.append({"type": "none", "label": "ICS", "options": {}})
+    if rng.chance(1, 8):
+        comps.append({"type": "custom", "label": "INNER", "options": {"components": [
+            {"type": "links", "label": "L", "options": {"link_references": ["pc_a:eth-1<->sw:eth-1"]}}, {"type": "none", "label": "N", "options": {}}]}})
     cfg = {"type": "custom", "options": {"components": comps, "thresholds": thresholds}}
-    import copy
-    mgr = ObservationManager(config=copy.deepcopy(cfg))  # the constructor rewrites the dictionary it is given
-    obj = mgr.obs
-    facts.update({"cfg": cfg, "mt": mt, "ips": ips, "has_acl": bool(nodes_opts["routers"] or nodes_opts["firewalls"])})
+    facts.update({"cfg": cfg, "mt": all_mt or None, "ips": all_ips, "has_acl": bool(nodes_opts["routers"] or nodes_opts["firewalls"]),
+                  "thresholds": thresholds, "invalid": invalid})
+    obj = build_impl(cfg)
     return obj, facts
+
+
+def split_cfg(cfg: dict) -> Tuple[dict, Optional[dict]]:
+    """(observation_space as the scenario words it, game thresholds) of a generated manager configuration"""
+    import copy
+    osp = copy.deepcopy(cfg)
+    th = osp["options"].pop("thresholds", None)
+    return osp, th
+
+
+def build_impl(cfg: dict):
+    """ObservationManager(config).obs, or None when the construction raises (rejected configuration)"""
+    import copy
+    from primaite.game.agent.observations.observation_manager import ObservationManager
+    try:
+        return ObservationManager(config=copy.deepcopy(cfg)).obs  # the constructor rewrites the dictionary it is given
+    except Exception as e:  # noqa: BLE001 - rejection is an outcome the model must predict
+        build_impl.last_error = f"{type(e).__name__}: {str(e)[:200]}"
+        return None
 
 
 def set_capture(flag: bool):
@@ -583,6 +985,9 @@ def diagnose(obj_canon_space: Any, obs: Any, exc: Optional[str], facts: dict) ->
             return {"kind": kind, "site": "observe", "cause": "KeyError " + key}
         return {"kind": kind, "site": "observe", "cause": e.split(":")[0]}
     bad = leaves_out_of_space(obs, obj_canon_space)
+    if bad and ":keys " in bad[0]:
+        under = bad[0].split(":keys ")[0].rsplit("/", 1)[-1].split(":", 1)[-1].rstrip("0123456789")
+        return {"kind": "key-set-mismatch", "under": under or "<top>"}
     leaf = bad[0].rsplit("/", 1)[-1] if bad else "?"
     leaf = leaf.split(":", 1)[1] if leaf.startswith(("s:", "n:")) else leaf
     if leaf in ("source_ip_id", "dest_ip_id", "source_wildcard_id", "dest_wildcard_id", "source_port_id", "dest_port_id", "protocol_id") and facts.get("dup"):
